@@ -255,23 +255,18 @@ def build(outpath, jsonpath=None):
     w("")
     w(f"Definition n_classes : nat := {ncls}%nat.   (* character classes 0 .. n_classes-1; class 0 = every other code point *)")
     w(f"Definition cls_end : nat := {end_cls}%nat.   (* the END marker *)")
-    w("Definition classify (c : N) : nat :=")
     items = sorted(char2cls.items())
-    # chain of ifs on exact chars, compressed into ranges
     ranges = []
     for c, k in items:
         if ranges and ranges[-1][2] == k and ranges[-1][1] == c - 1:
             ranges[-1][1] = c
         else:
             ranges.append([c, c, k])
-    for lo, hi, k in ranges:
-        if lo == hi:
-            w(f"  if N.eqb c {lo} then {k}%nat else")
-        else:
-            w(f"  if andb (N.leb {lo} c) (N.leb c {hi}) then {k}%nat else")
-    w("  0%nat.")
-    w("Definition class_ranges : list (N * N * nat) := [" +
-      "; ".join(f"({lo}, {hi}, {k}%nat)" for lo, hi, k in ranges) + "].")
+    w("(* every code point the code base distinguishes, with its class; all other code points are class 0 *)")
+    w("Definition char_classes : list (N * nat) := [" + "; ".join(f"({c}, {k}%nat)" for c, k in items) + "].")
+    w("Fixpoint assoc_cls (c : N) (l : list (N * nat)) : nat :=")
+    w("  match l with [] => 0%nat | (c', k) :: l' => if N.eqb c c' then k else assoc_cls c l' end.")
+    w("Definition classify (c : N) : nat := assoc_cls c char_classes.")
     w("Definition class_repr (k : nat) : N := match k with")
     for k, (_, members) in enumerate(classes):
         rep = members[0] if members else OTHER_SAMPLES[0]
